@@ -98,7 +98,7 @@ PROPS = {
                 "and invalid ones with an occurrence dropped, doubled or a foreign flag added); "
                 "each is linearised in canonical order and in random permutations of its named "
                 "occurrences that keep same-field order, positional order and the side of "
-                "command names and `--`; spelling is identical in both lines.  Sibling commands share a letter (switch here, argument there) in a quarter of the definitions; two neighbouring flags that feed different fields are also written as one cluster in both orders (`-ab`, `-ba`).  Every first permutation is also run with one argument written `--name=` (empty value attached) in both orders; every 16th case is one of two shapes in which a named occurrence and a word compete for a slot (F34, F35). " + DISTINCT,
+                "command names and `--`; spelling is identical in both lines.  Sibling commands share a letter (switch here, argument there) in a quarter of the definitions; two neighbouring flags that feed different fields are also written as one cluster in both orders (`-ab`, `-ba`).  Every first permutation is also run with one argument written `--name=` (empty value attached) in both orders; every 16th case is one of two shapes in which a named occurrence and a word compete for a slot (F34, F35). " + DISTINCT + "  A dedicated scenario has alternatives that share a switch (`construct!([{-v}, {-v, --name N}])`): every order of the occurrences gives the same outcome. ",
         "assumptions": COMMON_ASSUMPTIONS + [
             "For two failing lines only the outcome class is compared (the message may name a "
             "different item); differing texts are counted, not judged.",
@@ -120,7 +120,7 @@ PROPS = {
                 "of a single-use occurrence / `=junk` on a flag inserted at the item boundaries "
                 "left of `--`, must fail on stderr. Hooks: the outermost accept event must show "
                 "every item consumed; cached remaining count must equal the ledger at every "
-                "remove/set_scope.  Another name of a command inserted right behind its name must be treated like an unrelated word in that place. " + DISTINCT,
+                "remove/set_scope.  Another name of a command inserted right behind its name must be treated like an unrelated word in that place. " + DISTINCT + "  A second `--` right of the separator is compared with an unrelated word in its place. ",
         "assumptions": COMMON_ASSUMPTIONS + [
             "Surplus words are only inserted where the active level declares no positional or "
             "command at all (elsewhere a word may legitimately be claimed).",
@@ -150,7 +150,7 @@ PROPS = {
                 "guard-tripping, parse-tripping; also as the value of the declared environment "
                 "variable of an item absent from the line) and the run must fail on stderr, with the "
                 "conversion/guard/parse message in the text unless the item is inside a choice.  Chains of adjacent commands may end in a typed word with a default; every 16th case is a dedicated `sleep [SECONDS]` scenario next to trailing words of the enclosing level (F32). "
-                + DISTINCT,
+                + DISTINCT + "  A third scenario: a choice between a sequence of words and a number under optional/fallback, given fewer words than the sequence needs. ",
         "assumptions": COMMON_ASSUMPTIONS + [
             "Expected conversion messages are obtained by calling the same FromStr impls in the "
             "harness; items under catch() are skipped (documented opposite behaviour).",
@@ -175,7 +175,7 @@ PROPS = {
                 "commands; bare, optional, defaulted, many, some) among other fields. Derivations "
                 "using one alternative per round must yield exactly that alternative's value "
                 "(repeated choices: values in command-line order); lines mixing items of two "
-                "alternatives of a non-repeated choice must fail on stderr.  A third of the `many` choices are repeated choices between adjacent commands (`build --release test build`); a quarter of the repeated choices have an adjacent group among single flags, and a one-word alternative written inside its block must fail.  Every 24th case is a choice between a subcommand and a flag (`build --fast` must fail, `--fast build` is two values under `many`). " + DISTINCT,
+                "alternatives of a non-repeated choice must fail on stderr.  A third of the `many` choices are repeated choices between adjacent commands (`build --release test build`); a quarter of the repeated choices have an adjacent group among single flags, and a one-word alternative written inside its block must fail.  Every 24th case is a choice between a subcommand and a flag (`build --fast` must fail, `--fast build` is two values under `many`). " + DISTINCT + "  A flag of an accepted line moved between the name of an argument and its value must fail. ",
         "assumptions": COMMON_ASSUMPTIONS + [
             "Branches of repeated choices contain only required single-occurrence items (an "
             "optional member would legitimately take occurrences meant for a later round).",
@@ -196,7 +196,7 @@ PROPS = {
                 "derivation and recogniser; a deeper level's option moved left of its command "
                 "name must fail; unknown / foreign / extra command names are judged by the "
                 "recogniser; `path.. --help` must print the help carrying the unique header "
-                "marker of exactly that level.  A fifth of the command choices sit under fallback/fallback_with.  Half of the trees have a version at the top level only: `--version`/`-V` behind a command name is an unknown flag there.  A sixth of the subcommands are hidden (their trees are written without clusters, F03); every 24th case is a chain of adjacent commands given nothing of their own. " + DISTINCT,
+                "marker of exactly that level.  A fifth of the command choices sit under fallback/fallback_with.  Half of the trees have a version at the top level only: `--version`/`-V` behind a command name is an unknown flag there.  A sixth of the subcommands are hidden (their trees are written without clusters, F03); every 24th case is a chain of adjacent commands given nothing of their own. " + DISTINCT + "  In the chain scenario help behind a later command of the chain must describe that command. ",
         "assumptions": COMMON_ASSUMPTIONS + [
             "An enclosing level's option right of a command name is outside the quantifier and "
             "counted as inconclusive.",
@@ -216,7 +216,7 @@ PROPS = {
                 "split; words right of it are replaced by dash-looking data (`--`, `--help`, "
                 "declared names, command names) and must arrive verbatim; `--name --` must fail; "
                 "moving the separator so that a strict word is on its left or a non-strict one on "
-                "its right must fail.  Positionals under optional/repeating wrappers are hidden in a quarter of the cases; one definition in eight is `[LEFT-ONLY] .. -- RIGHT-ONLY...`; an absent or repeated left-side-only word does not close the strict words that follow.  The builder clones every other positional after restricting it.  A name-like surplus item right of `--` must not get a `did you mean`; every 32nd case is a `cargo_helper` parser with data spelled like the command word right of `--` (F44). " + DISTINCT,
+                "its right must fail.  Positionals under optional/repeating wrappers are hidden in a quarter of the cases; one definition in eight is `[LEFT-ONLY] .. -- RIGHT-ONLY...`; an absent or repeated left-side-only word does not close the strict words that follow.  The builder clones every other positional after restricting it.  A name-like surplus item right of `--` must not get a `did you mean`; every 32nd case is a `cargo_helper` parser with data spelled like the command word right of `--` (F44). " + DISTINCT + "  A quarter of the definitions carry fallback_to_usage. ",
         "assumptions": COMMON_ASSUMPTIONS,
         "must_observe": ["definitions-with-a-hidden-non-strict-positional", "class:sentence-hostile-words-after-separator",
                          "class:argument-name-then-separator",
@@ -237,7 +237,7 @@ PROPS = {
                 "its own item at every boundary left of `--` (including between an argument name "
                 "and its value and inside adjacent blocks); outcome must be stdout carrying the "
                 "header (or version) of the innermost entered level (for invalid base lines: of a "
-                "level on the entered path).  Command choices may sit under fallback/fallback_with.  One case in 24 is a user argument named `-h`/`-V` next to a subcommand, written `-hVALUE`, with a help request on the line.  Chains of adjacent commands may be reduced with `last()`. " + DISTINCT,
+                "level on the entered path).  Command choices may sit under fallback/fallback_with.  One case in 24 is a user argument named `-h`/`-V` next to a subcommand, written `-hVALUE`, with a help request on the line.  Chains of adjacent commands may be reduced with `last()`. " + DISTINCT + "  Trees also have hidden subcommands and subcommands under optional().catch(). ",
         "assumptions": COMMON_ASSUMPTIONS + [
             "No definition declares the same short letter as flag and argument, so the "
             "ambiguous-cluster exemption never applies.",
@@ -331,7 +331,7 @@ PROPS = {
                 "(named or variable-only) is absent together with its variable: the run fails "
                 "naming that member or variable, and succeeds once the variable is set; (E) an "
                 "adjacent group led by a variable-backed argument (F40). Every 8th case is repeated in a child process "
-                "whose environment comes from the OS. " + DISTINCT,
+                "whose environment comes from the OS. " + DISTINCT + "  Scenario (B'') also puts the repeated item into a choice. ",
         "assumptions": COMMON_ASSUMPTIONS + [
             "Shard processes are single-threaded, so set_var/remove_var between cases is safe.",
         ],
@@ -409,7 +409,7 @@ PROPS = {
                 "classifier and escape scanner (only bpaf's requests/escapes), one section per "
                 "visible level mentioning every visible item, no hidden item mentioned. "
                 "evaluations = documents rendered; distinct_nontrivial = distinct (definition, "
-                "format) pairs. Half of the definitions with two command subtrees give a nested command of the second the name and description of one in the first (`app remote add` / `app stash add`). Flags and arguments may be backed by environment variables.",
+                "format) pairs. Half of the definitions with two command subtrees give a nested command of the second the name and description of one in the first (`app remote add` / `app stash add`). Flags and arguments may be backed by environment variables." + "  Some item helps are written with the Doc API, styled fragments next to each other. ",
         "assumptions": COMMON_ASSUMPTIONS + [
             "groff/man/zsh are not installed: the manpage is judged lexically against the set of "
             "requests and escapes bpaf's renderer emits.",
@@ -434,7 +434,7 @@ PROPS = {
                 "candidate explained by the definition; hidden names and names of commands not "
                 "entered never offered; for fresh prefixes at item starts every visible, not yet "
                 "given, top-level name of the active level that extends the prefix is offered.  Every 32nd case: alternatives whose names extend one another, the shorter one typed exactly (F42).  A sixth of the group titles are empty `Doc`s; every fourth request is repeated with `--bpaf-complete-rev=0` as an item of the line and must give the same answer. "
-                + DISTINCT,
+                + DISTINCT + "  A bare completer value is not applicable to a value glued to its short name (`-kpa`). ",
         "assumptions": COMMON_ASSUMPTIONS + [
             "strict() positionals are not generated (next to them bpaf offers a `--` hint the "
             "statement does not mention either way).",
@@ -494,7 +494,7 @@ PROPS = {
                 "clusters), help/description strings with code fences, indented code and several "
                 "paragraphs, group_help, hidden items, completers, and vectors ending in ``, `-`, "
                 "`--`. evaluations = executions over all builds; distinct_nontrivial = distinct "
-                "lines of the reference stream. One corpus definition in six has a command reachable from two branches that differ only in the footer. For failures the corpus also records the bytes `print_message` writes to file descriptor 2.",
+                "lines of the reference stream. One corpus definition in six has a command reachable from two branches that differ only in the footer. For failures the corpus also records the bytes `print_message` writes to file descriptor 2." + "  Calls of the user's completion function are part of the compared outcome stream. ",
         "assumptions": [
             "Built from /repo's working tree in release mode with overflow-checks; hooks are not "
             "compiled into these variants (cfg(bpaf_verif) off), so the comparison is between "
